@@ -12,6 +12,7 @@
 #include <cmath>
 #include <cstdlib>
 #include <iostream>
+#include <limits>
 #include <random>
 #include <sstream>
 
@@ -73,6 +74,8 @@ template <typename T> static T value_at(long long pos, T x)
 {
     if (pos < 0) return T(1) + std::floor(x * T(3));
     if (pos % 5 == 0) return T();
+    // non-finite evaluations: counted as calls, not as finite ones, and contribute nothing
+    if (pos % 7 == 3) return pos % 2 ? std::numeric_limits<T>::quiet_NaN() : std::numeric_limits<T>::infinity();
     return T(1 + pos % 3) + (ectx.fine ? fine<T>(pos) : T());
 }
 
@@ -111,6 +114,30 @@ template <typename T, typename E, int BITS> struct plain_k
     {
         return hep::mpi_plain(comm, hep::make_integrand<T>([](hep::mc_point<T> const& p, hep::projector<T>& pr) { return eval_dist(p, pr); }, d(),
             hep::make_dist_params<T>(3, T(), T(1), "one"), hep::distribution_parameters<T>(3, 2, T(), T(1), T(), T(1), "two")), plan, c, cb);
+    }
+};
+// PLAIN with one large two-dimensional distribution (300 x 220 bins): the reduction buffer has more than 2^17 elements
+template <typename T, typename E, int BITS> struct plainwide_k : plain_k<T, E, BITS>
+{
+    typedef typename plain_k<T, E, BITS>::chk chk;
+    static char const* name() { return "plain"; }
+    static T eval_wide(hep::mc_point<T> const& p, hep::projector<T>& pr)
+    {
+        T v = plain_k<T, E, BITS>::eval(p);
+        // the first number is a small multiple of 2^-23: spread it over the x range; y from the second number
+        T x = std::fmod(p.point()[0] * T(8388608) * T(37), T(300)) / T(300);
+        pr.add(0, x, p.point()[1], v + T(1));
+        return v;
+    }
+    template <typename CB> static chk serial(chk const& c, std::vector<std::size_t> const& plan, CB cb)
+    {
+        return hep::plain(hep::make_integrand<T>([](hep::mc_point<T> const& p, hep::projector<T>& pr) { return eval_wide(p, pr); }, 2,
+            hep::distribution_parameters<T>(300, 220, T(), T(1), T(), T(1), "wide")), plan, c, cb);
+    }
+    template <typename CB> static chk parallel(MPI_Comm comm, chk const& c, std::vector<std::size_t> const& plan, CB cb)
+    {
+        return hep::mpi_plain(comm, hep::make_integrand<T>([](hep::mc_point<T> const& p, hep::projector<T>& pr) { return eval_wide(p, pr); }, 2,
+            hep::distribution_parameters<T>(300, 220, T(), T(1), T(), T(1), "wide")), plan, c, cb);
     }
 };
 template <typename T, typename E, int BITS> struct vegas_k
@@ -417,6 +444,9 @@ int main(int argc, char** argv)
         return 0;
     }
     family<double>(g, worlds, thorough);
+    // one large distribution (only here: its text is megabytes per result)
+    one_run<plainwide_k<double, counter_engine<64>, 64>, double>("counter64", counter_engine<64>(3), true, worlds.size() > 1 ? 3 : worlds[0],
+        std::vector<std::size_t>{40, 7}, 0.0);
     family<float>(g, thorough ? worlds : std::vector<int>{2, 5}, thorough);
     family<long double>(g, thorough ? worlds : std::vector<int>{3}, thorough);
     out().close();
